@@ -348,6 +348,80 @@ Section Framing.
 End Framing.
 
 (* ------------------------------------------------------------------------------------------------ *)
+(** * what one written record yields: the MOL block goes to the parser, the lines after "M  END" to read_metadata *)
+Section Split.
+  Variable A : Type.
+  Variable build_mol : parsed3 -> pyres A.
+  Variable build_rxn : rparsed -> pyres A.
+
+  Definition is_mend (l : str) : bool := startswith (L "M  END") l.
+
+  Lemma mend_found ml : forall k e rest, Forall (fun l => is_mend l = false) ml -> is_mend e = true ->
+    mend (ml ++ e :: rest) k None = Some (S (k + length ml)).
+  Proof.
+    induction ml as [|l ml IH]; intros k e rest Hml He.
+    - cbn [app mend length]. unfold is_mend in He. rewrite He. rewrite Nat.add_0_r.
+      clear. generalize (S k) at 1. generalize (S k). induction rest as [|x rest IH]; intros v n; [reflexivity|]. cbn [mend]. apply IH.
+    - inversion Hml as [|? ? Hl Hml']; subst. cbn [app mend]. unfold is_mend in Hl. rewrite Hl.
+      rewrite IH by assumption. cbn [length]. f_equal. lia.
+  Qed.
+
+  (* an SDF record = MOL lines (none starts with "M  END"), the "M  END" line, metadata lines *)
+  Theorem sdf_record_split ml e metal :
+    Forall (fun l => is_mend l = false) ml -> is_mend e = true ->
+    sdf_one A build_mol (ml ++ e :: metal) =
+    match dispatch_mol A build_mol (ml ++ [e]) with
+    | Err x => inr (Py x)
+    | Ok mol => inl (mol, sdf_read_metadata metal)
+    end.
+  Proof.
+    intros Hml He. unfold sdf_one. destruct (ml ++ e :: metal) as [|x r] eqn:E; [destruct ml; discriminate|]. rewrite <- E.
+    rewrite mend_found by assumption. cbn [Nat.add].
+    assert (E1 : firstn (S (length ml)) (ml ++ e :: metal) = ml ++ [e]).
+    { clear. induction ml as [|l ml IH]; cbn [length app firstn]; [reflexivity|]. f_equal. exact IH. }
+    assert (E2 : skipn (S (length ml)) (ml ++ e :: metal) = metal).
+    { clear. induction ml as [|l ml IH]; cbn [length app skipn]; [reflexivity|]. exact IH. }
+    rewrite E1, E2. reflexivity.
+  Qed.
+
+  (* an RDF record body = structure lines (no "$DTYPE" line), then the metadata lines starting with a "$DTYPE" line *)
+  Lemma mscan_none sl : forall k, Forall (fun l => is_dtype l = false) sl -> mscan sl k None = None.
+  Proof.
+    induction sl as [|l sl IH]; intros k H; [reflexivity|]. inversion H as [|? ? Hl H']; subst.
+    cbn [mscan falsy andb]. rewrite Hl. apply IH. exact H'.
+  Qed.
+  Lemma mscan_keep metal : forall k j, mscan metal k (Some (S j)) = Some (S j).
+  Proof. induction metal as [|l metal IH]; intros k j; [reflexivity|]. cbn [mscan falsy andb]. apply IH. Qed.
+  Lemma mscan_found sl : forall d metal, Forall (fun l => is_dtype l = false) sl -> is_dtype d = true -> sl <> [] ->
+    mscan (sl ++ d :: metal) 0 None = Some (length sl).
+  Proof.
+    intros d metal Hs Hd Hne.
+    assert (G : forall sl k, Forall (fun l => is_dtype l = false) sl -> mscan (sl ++ d :: metal) k None =
+                              match (k + length sl)%nat with O => mscan metal 1 (Some 0%nat) | S j => Some (S j) end).
+    { clear - Hd. induction sl as [|l sl IH]; intros k H.
+      - cbn [app mscan falsy andb length]. rewrite Hd. rewrite Nat.add_0_r. destruct k; [reflexivity|]. apply mscan_keep.
+      - inversion H as [|? ? Hl H']; subst. cbn [app mscan falsy andb]. rewrite Hl. rewrite IH by exact H'. cbn [length].
+        replace (S k + length sl)%nat with (k + S (length sl))%nat by lia. reflexivity. }
+    rewrite G by exact Hs. cbn [Nat.add]. destruct sl; [contradiction|]. reflexivity.
+  Qed.
+  Theorem rdf_record_split sl d metal :
+    Forall (fun l => is_dtype l = false) sl -> is_dtype d = true -> sl <> [] ->
+    rdf_one A build_mol build_rxn (sl ++ d :: metal) =
+    match rdf_dispatch A build_mol build_rxn (sl ++ d :: metal) with
+    | Err x => inr (Py x)
+    | Ok obj => inl (obj, rdf_read_metadata (d :: metal))
+    end.
+  Proof.
+    intros Hs Hd Hne. unfold rdf_one. destruct (sl ++ d :: metal) as [|x r] eqn:E; [destruct sl; discriminate|]. rewrite <- E.
+    cbv zeta. rewrite (mscan_found sl d metal Hs Hd Hne).
+    destruct sl as [|s0 sl]; [contradiction|]. cbn [length falsy].
+    assert (E2 : skipn (S (length sl)) ((s0 :: sl) ++ d :: metal) = d :: metal).
+    { clear. cbn [app skipn]. induction sl as [|l sl IH]; cbn [length app skipn]; [reflexivity|]. exact IH. }
+    rewrite E2. reflexivity.
+  Qed.
+End Split.
+
+(* ------------------------------------------------------------------------------------------------ *)
 (** * non-vacuity: a three-record SDF file whose middle record is damaged (its counts line is garbage); the builder
       returns the title of the parsed molecule *)
 Definition ex_rec (title : string) (counts : string) : list str :=
